@@ -37,12 +37,14 @@ class C17(FsProp):
     ]
 
     def mc(self, tier):
-        return [{"module": "EditFs.tla", "cfg": "MC_EditFs.cfg", "coverage": True, "workers": 2,
+        return [{"module": "EditFs.tla", "cfg": "MC_EditFs.cfg", "coverage": True, "workers": 2, "coverage_exempt": ["EditFs!ShortCount"],
                  "what": "edit FS program (fixed variant) x Crash/Fail/TornWrite at every point x encodable or not"},
                 {"module": "EditFs.tla", "cfg": "MC_EditFs_code.cfg", "expect": "fail", "workers": 2,
                  "what": "remove-then-write (pinned commit) must violate NeverLost"},
                 {"module": "EditFs.tla", "cfg": "MC_EditFs_notrunc.cfg", "expect": "fail", "workers": 2,
                  "what": "temporary file opened without truncation: unsafe after an interrupted edit (Restart)"},
+                {"module": "EditFs.tla", "cfg": "MC_EditFs_shortcount.cfg", "expect": "fail", "workers": 2,
+                 "what": "one unbuffered write whose short count is ignored (seeds R13-C17 / R14-C17): a partial file is renamed onto M"},
                 {"module": "EditFs.tla", "cfg": "MC_EditFs_inwith.cfg", "expect": "fail", "workers": 2,
                  "what": "os.replace while the temporary file is still open: the rename carries an empty file to M "
                          "(open handles follow renames in FsModel)"}]
